@@ -39,6 +39,17 @@ def run(c, a):
                     raise Undecided("harness fetched other component records than the specification decodes: %s gid %s" % (ev["font"], ev["gid"]))
                 c.fail("pred=%s font=%s" % (f["pred"], ev["font"]), "gid=%d ext=%s adv=%s nhm=%s advgid=%s advlast=%s glyf=%s" % (ev["gid"], ev["ext"], ev["adv"], ev["nhm"], ev["advgid"], ev["advlast"], ev["glyf"][:40]),
                        {"engine": "glyf", "font": ev["font"], "gid": ev["gid"]})
+    # ---- M: the decoder's own binary search is the linear "first segment whose end >= code" (all ascending lists of <= N segments)
+    cfgp = os.path.join(c.specdir, "CmapBytesMC.cfg")
+    cfgtext = open(cfgp).read().replace("N = 3", "N = %d" % (4 if thorough else 3))
+    open(cfgp, "w").write(cfgtext)
+    g = c.tlc("CmapBytesMC", cfg="CmapBytesMC.cfg", workers=NCPU, timeout=3600, heap="4g")
+    if g.rc != 0 or g.error:
+        from .common import Undecided
+        raise Undecided("CmapBytesMC: the decoder's search is not the linear definition (specification error):\n" + g.out[-1500:])
+    c.states += g.distinct
+    c.transitions += g.generated
+    c.extra["cmap_decoder_model_states"] = g.distinct
     # ---- character-to-glyph mapping: the raw cmap table decoded by CmapBytes.tla vs NominalGlyph over all code points
     prefix = os.path.join(c.scratch, "cb")
     out = json.loads(c.vh(["cmapbytes", "corpus", 0 if thorough else 400, 400000, prefix, NCPU], timeout=7200).stdout)
